@@ -339,8 +339,12 @@ def main(argv):
     import pyteal as pt
     import pyteal.compiler.compiler as cc
 
-    ck.run_proofs("Props/C12.v", ["Proofs/ConstantsLitProof.v", "Proofs/ConstantsProof.v", "Proofs/ConstantsSim.v"],
-                  extra_targets=["Extract/Main_c12.vo", "Extract/Main.vo"])
+    ck.run_proofs("Props/C12.v", ["Proofs/ConstantsLitProof.v", "Proofs/ConstantsProof.v", "Proofs/ConstantsSim.v",
+                                   # whole-program level (Props/C12_program.v): lock-step simulation on the reference machine between the
+                                   # pseudo-op program and the assembled-constants program, and between the two printed texts
+                                   "Proofs/ConstantsProgramMach.v", "Proofs/ConstantsProgramLink.v", "Proofs/ConstantsProgram.v", "Proofs/ConstantsProgramText.v",
+                                   "Proofs/ConstantsProgramCompile.v", "Proofs/ConstantsProgramLiterals.v", "Proofs/ConstantsProgramExamples.v"],
+                  extra_targets=["Extract/Main_c12.vo", "Extract/Main.vo"], extra_props=["Props/C12_program.v"])
     def open_model(name, target):
         # the binaries are rebuilt whenever any .v changed; if the tree moved under us, rebuild the objects and retry
         for _ in range(2):
